@@ -141,6 +141,21 @@ def monitor_cases(rng, tier, stats):
             guess = "orth"
             nswp = 30
             fam = "/orthogonal-guess"
+        if c % 8 == 6:
+            # structured family: TALL operators (row modes larger than column modes) whose product has far higher rank than a tensor of the
+            # COLUMN shape could have — any rank bookkeeping of amen_mv must refer to the shape of the result, not of the input vector
+            routine = "amen_mv"
+            cplx = False
+            dt = tn.float64
+            d = 4
+            M = [4, 6, 6, 4]
+            N = [2, 1, 2, 2]
+            RA = [1, 2, 4, 2, 1]
+            Rx = [1, 2, 2, 2, 1]
+            eps = [1e-10, 1e-4, 1e-7][(c // 8) % 3]
+            decay = False
+            guess = [None, "user"][(c // 8) % 2]
+            fam = "/tall-operator"
         scale = 1.0
         if c % 8 == 7:
             # structured family: operands of tiny (or huge) magnitude together with a user-supplied guess of comparable or zero norm — the
